@@ -33,10 +33,16 @@ ASSUMPTIONS = [
     'size_t / int arithmetic does not wrap on the valid domain (all intermediate values are below the element counts)',
     'compile-time / fixed / bounded shape kinds of the same routines are in the C09/C11 kind matrix, not here (dynamic shapes only)',
 ]
-PARTIAL = []
+PARTIAL = [
+    'tensordot_axes_eq_def_partial: explicit axes, any rank — result shape = free extents of a ++ free extents of b and the terms of out[p,q] are (scatter (p++c) lt, scatter (q++c) rt) for c over exactly the contracted block in row-major order; missing for arbitrary rank: scatter (p++c) (moveToEnd dim axes) = placeIdx axes c (range dim) p, i.e. the identification with the NumPy spec specTensordot (full statement kept as a comment in Props/C16.lean)',
+    'tensordot_axes_small_scope_partial: the full explicit-axes statement (model = specTensordot) only for operand ranks <= 2, extents 1..3, all ordered axis choices (kernel decide)',
+    'kron_small_scope_partial: kron = specKron (shape and the single product term at every index) only for operand ranks <= 2 with extents 1..3 and ranks (1|2,3),(3,1|2) with extents 1..2 (kernel decide); missing for arbitrary rank: closed form of kron_dst_transpose and the pair-merging reshape',
+    'matmul_elem_eq_sum covers view::matmul for operand ranks >= 2 only: with a 1-d operand the unchanged view throws / is undefined (known finding matmul.v1-1d-operand, matmul_v1_1d_counterexample); matmulv2_eq_def covers all ranks >= 1',
+    'trace_eq_def covers 0 <= offset < extent(axis2) (non-empty diagonal); negative offsets are a known finding (trace_negative_offset_counterexample), empty diagonals crash in the reducer (known finding trace.empty-diagonal, no model)',
+]
 MANIFEST = dict(
-    text='',
-    note='',
+    text='Proof: 16 Lean theorems over a symbolic term-list model (for every destination index the ordered list of (lhs index, rhs index) products a routine sums): index::shape_matmul = NumPy rule on all pairs (isSome iff accepted); view::matmul (ranks >= 2) and view::matmulv2 (all ranks >= 1, batch broadcasting, 1-d promotion) sum exactly a[..,i,k]*b[..,k,j], k in order; dot, inner, outer, vecdot, tensordot(integer axes), trace(offset >= 0) equal their NumPy definitions for every rank/extent; tensordot(explicit axes) and kron are partial (term structure for any rank resp. full statement on rank <= 2 / extents <= 3 by kernel decide). Tied to the C++ on every run by a differential run of all eight routines (element access and eval) + pipeline shape helpers against the model and against NumPy.',
+    note='Lean kernel + propext/Classical.choice/Quot.sound; hand-written model (view combinators reshape/tile/transpose/broadcast-multiply/sum mirrored from the headers), fidelity rests on the correspondence run; broadcast_to index map taken in per-axis form (C06); dynamic-shape arrays only (static/bounded kinds in C09/C11); 3 genuine defects of the unchanged tree are known findings (view::matmul with a 1-d operand, trace/diagonal with negative offset, trace over an empty diagonal).',
     technique='Lean 4 proofs over symbolic term lists (which (lhs index, rhs index) pairs are summed, in order) for every rank/extent + differential correspondence against the real views (element access and eval) + NumPy oracle')
 
 
@@ -266,3 +272,95 @@ def gen(tier, rng):
         # empty diagonal: reduce over nothing (SIGFPE in the harness) — no model, NumPy (0) judges
         yield Case('trace a=%s offset=%d axis1=%d axis2=%d data=%s' % (fmt(s), off, x1, x2, m), 'h_c16_td', oracle=orc,
                    dom=not (neg or empty), model=not empty, nontrivial=(min(n1, n2) > 1), tags=tags)
+
+    # ---- seeded random larger cases (extents up to 7, rank up to 4), every routine ----
+    yield from random_cases(rng, 60 if quick else 600, cap if quick else 4000)
+
+
+def _bc_partner(rng, batch):
+    """a batch shape that broadcasts with `batch`: drop leading axes, set some to 1, or prepend new ones"""
+    b = list(batch)
+    k = rng.randint(0, len(b))
+    b = b[k:]
+    b = [1 if rng.random() < 0.3 else e for e in b]
+    if rng.random() < 0.3 and len(b) < 2:
+        b = [rng.randint(1, 4)] + b
+    return b
+
+
+def random_cases(rng, n, cap):
+    def rshape(lo, hi, emax=7):
+        return [rng.randint(1, emax) for _ in range(rng.randint(lo, hi))]
+
+    def ok(r):
+        return r is not None and np.asarray(r).size <= cap
+
+    for t in range(n):
+        m = 'mix' if t % 3 else 'lin'
+        # matmul
+        a = rshape(1, 4)
+        K = a[-1]
+        if rng.random() < 0.2:
+            b = [K]
+        else:
+            bb = _bc_partner(rng, a[:-2])[-2:]
+            a2 = [1 if (rng.random() < 0.3 and len(a) > 2 and i < len(a) - 2) else e for i, e in enumerate(a)]
+            a = a2
+            b = bb + [K, rng.randint(1, 7)]
+        r = np_try(lambda: np.matmul(mk(a, m, 0), mk(b, m, 1)))
+        if ok(r):
+            one_d = len(a) == 1 or len(b) == 1
+            yield Case('matmul impl=v1 a=%s b=%s data=%s' % (fmt(a), fmt(b), m), 'h_c16_mm', oracle=show(r), dom=not one_d, tags=['matmul', 'v1', 'random'])
+            yield Case('matmul impl=v2 a=%s b=%s data=%s' % (fmt(a), fmt(b), m), 'h_c16_mm', oracle=show(r), tags=['matmul', 'v2', 'random'])
+        # dot / inner / vecdot
+        a = rshape(1, 3)
+        K = a[-1]
+        b = rshape(0, 2, 5) + ([K, rng.randint(1, 6)] if rng.random() < 0.7 else [K])
+        r = np_try(lambda: np.dot(mk(a, m, 0), mk(b, m, 1)))
+        if ok(r):
+            yield Case('dot a=%s b=%s data=%s' % (fmt(a), fmt(b), m), 'h_c16_dot', oracle=show(r), tags=['dot', 'random'])
+        b = rshape(0, 2, 5) + [K]
+        r = np_try(lambda: np.inner(mk(a, m, 0), mk(b, m, 1)))
+        if ok(r):
+            yield Case('inner a=%s b=%s data=%s' % (fmt(a), fmt(b), m), 'h_c16_dot', oracle=show(r), tags=['inner', 'random'])
+        b = _bc_partner(rng, a[:-1]) + [K]
+        r = np_try(lambda: np.vecdot(mk(a, m, 0), mk(b, m, 1)))
+        if ok(r):
+            yield Case('vecdot a=%s b=%s data=%s' % (fmt(a), fmt(b), m), 'h_c16_dot', oracle=show(r), tags=['vecdot', 'random'])
+        # outer / kron
+        a, b = rshape(1, 3, 5), rshape(1, 3, 5)
+        r = np.outer(mk(a, m, 0), mk(b, m, 1))
+        if ok(r):
+            yield Case('outer a=%s b=%s data=%s' % (fmt(a), fmt(b), m), 'h_c16_dot', oracle=show(r), tags=['outer', 'random'])
+        a, b = rshape(1, 4, 4), rshape(1, 4, 4)
+        if prod(a) * prod(b) <= cap:
+            r = np.kron(mk(a, m, 0), mk(b, m, 1))
+            yield Case('kron a=%s b=%s data=%s' % (fmt(a), fmt(b), m), 'h_c16_td', oracle=show(r), tags=['kron', 'random', 'rank=%d,%d' % (len(a), len(b))])
+        # tensordot: explicit axes (sometimes negative), integer axes
+        a = rshape(1, 4, 5)
+        rb = rng.randint(1, 4)
+        nn = rng.randint(0, min(len(a), rb))
+        la = rng.sample(range(len(a)), nn)
+        ra = rng.sample(range(rb), nn)
+        b = [rng.randint(1, 5) for _ in range(rb)]
+        for x, y in zip(la, ra):
+            b[y] = a[x]
+        la_s = [x - len(a) if rng.random() < 0.3 else x for x in la]
+        ra_s = [y - rb if rng.random() < 0.3 else y for y in ra]
+        if nn > 0:
+            r = np_try(lambda: np.tensordot(mk(a, m, 0), mk(b, m, 1), (la_s, ra_s)))
+            if ok(r):
+                yield Case('tensordot a=%s b=%s la=%s ra=%s data=%s' % (fmt(a), fmt(b), fmt(la_s), fmt(ra_s), m), 'h_c16_td', oracle=show(r),
+                           tags=['tensordot', 'explicit-axes', 'random', 'n=%d' % nn])
+        b = a[len(a) - nn:] + rshape(0, 2, 5)
+        r = np_try(lambda: np.tensordot(mk(a, m, 0), mk(b, m, 1), nn))
+        if ok(r) and len(b) >= 1:
+            yield Case('tensordot a=%s b=%s axes=%d data=%s' % (fmt(a), fmt(b), nn, m), 'h_c16_td', oracle=show(r), tags=['tensordot', 'int-axes', 'random', 'n=%d' % nn])
+        # trace, non-empty diagonal, offset >= 0
+        a = rshape(2, 4, 6)
+        a1, a2 = rng.sample(range(len(a)), 2)
+        off = rng.randint(0, a[a2] - 1)
+        x1 = a1 - len(a) if rng.random() < 0.3 else a1
+        x2 = a2 - len(a) if rng.random() < 0.3 else a2
+        r = np.trace(mk(a, m, 0), off, x1, x2)
+        yield Case('trace a=%s offset=%d axis1=%d axis2=%d data=%s' % (fmt(a), off, x1, x2, m), 'h_c16_td', oracle=show(r), tags=['trace', 'random'])
